@@ -4,7 +4,7 @@
    holds, meshes, names) is proved for the model of the code, for every size; the DFT itself
    (scipy's) is an abstract transform over any commutative ring with a root of unity w
    (hypotheses: w^n = 1 and sum_k w^(d k) = 0 for 0 < d < n). *)
-From DF Require Import Prelude Constants_gen Region Mesh Fft C11_shift C11_kmesh C11_names C11_dft C11_dftn C11_arrange C11_shape C11_mesh.
+From DF Require Import Prelude Constants_gen Region Mesh Fft C11_shift C11_kmesh C11_names C11_dft C11_dftn C11_arrange C11_shape C11_mesh C11_imesh C11_roundtrip.
 From Coq Require Import ZArithRing.
 Open Scope Q_scope.
 
@@ -260,12 +260,48 @@ Theorem C11_mesh_fftn : forall (m : mesh) (rfft : bool), wf_mesh m ->
     dims (reg km) = map kdim (dims (reg m)) /\ units (reg km) = map kunit (units (reg m)) /\
     pmin (reg km) = map2 Qmin (map fst3 ax) (map snd3 ax) /\
     pmax (reg km) = map2 Qmax (map fst3 ax) (map snd3 ax) /\
-    Forall2 Qlt (map fst3 ax) (map snd3 ax) /\ length ax = length (n m).
+    Forall2 Qlt (map fst3 ax) (map snd3 ax) /\ length ax = length (n m) /\ tf (reg km) = tf (reg m).
 Proof. exact mesh_fftn_ok. Qed.
 Print Assumptions C11_mesh_fftn.
 Example C11_mesh_fftn_nonvacuous :
   wf_mesh (mkMesh (mkRegion [0; 0] [4; 3] ["x"%string; "y"%string] ["m"%string; "m"%string] (1 # 1000)) [4%Z; 3%Z] "" []).
 Proof. exact wf_mesh_nonvacuous. Qed.
+
+(* ---------------------------------------------------------------- Mesh.ifftn, all axes *)
+(* on every well-formed mesh with an accepted shape s (entries >= 1) whose names stay distinct
+   after stripping "k_", Mesh.ifftn succeeds: counts = s, stripped names/units, and every axis
+   (after min/max ordering and recentring, [fin]) is symmetric about the origin with extent
+   1/kcell, i.e. cell = 1/(s * kcell) *)
+Theorem C11_mesh_ifftn : forall (k : mesh) (rfft : bool) (sh : shape_arg) (s : list Z), wf_mesh k ->
+  ifft_shape (n k) rfft sh = OK s -> length s = length (n k) -> Forall (fun j => (1 <= j)%Z) s ->
+  NoDup (map unkdim (dims (reg k))) ->
+  exists m' axl, mesh_ifftn k rfft sh = OK m' /\
+    n m' = s /\
+    dims (reg m') = map unkdim (dims (reg k)) /\ units (reg m') = map unkunit (units (reg k)) /\
+    pmin (reg m') = map (fun a => fst (fin a)) axl /\ pmax (reg m') = map (fun a => snd (fin a)) axl /\
+    Forall2 (fun a p => thd3 a = fst p /\ fst (fin a) == - snd (fin a) /\
+                        snd (fin a) - fst (fin a) == 1 / snd p) axl (combine s (cell k)).
+Proof. exact mesh_ifftn_ok. Qed.
+Print Assumptions C11_mesh_ifftn.
+Example C11_mesh_ifftn_nonvacuous :
+  let k := mkMesh (mkRegion [0; 0] [4; 3] ["k_x"%string; "k_y"%string] ["m"%string; "m"%string] (1 # 1000)) [4%Z; 2%Z] "" [] in
+  wf_mesh k /\ ifft_shape (n k) true (ShList [4; 3]%Z) = OK [4; 3]%Z /\ length [4; 3]%Z = length (n k) /\
+  Forall (fun j => (1 <= j)%Z) [4; 3]%Z /\ NoDup (map unkdim (dims (reg k))).
+Proof. exact mesh_ifftn_hyps_nonvacuous. Qed.
+
+(* Mesh.ifftn (Mesh.fftn m), all axes, every well-formed mesh, both kinds (the real kind given
+   the original counts, odd sizes included): both calls succeed; original counts, dimension
+   names and units; every axis centred at the origin with extent 1/kcell (= n * cell by
+   C11_inverse_mesh_axis) *)
+Theorem C11_mesh_roundtrip : forall (m : mesh) (rfft : bool), wf_mesh m ->
+  exists km m' axl, mesh_fftn m rfft = OK km /\
+    mesh_ifftn km rfft (if rfft then ShList (n m) else ShNone) = OK m' /\
+    n m' = n m /\ dims (reg m') = dims (reg m) /\ units (reg m') = units (reg m) /\
+    pmin (reg m') = map (fun a => fst (fin a)) axl /\ pmax (reg m') = map (fun a => snd (fin a)) axl /\
+    Forall2 (fun a p => thd3 a = fst p /\ fst (fin a) == - snd (fin a) /\
+                        snd (fin a) - fst (fin a) == 1 / snd p) axl (combine (n m) (cell km)).
+Proof. exact mesh_roundtrip. Qed.
+Print Assumptions C11_mesh_roundtrip.
 
 (* ---------------------------------------------------------------- shape validation *)
 (* an explicit shape is accepted iff it has the mesh's length, equals the counts on all axes but
